@@ -18,7 +18,7 @@ def reproduce(hbin, cases):
     """Re-run mismatching strings once more in a fresh process; return those that still disagree."""
     if not cases:
         return []
-    inp = "\n".join(json.dumps({"bytes": c["bytes"], "trailing": c["trailing"]}) for c in cases).encode()
+    inp = "\n".join(json.dumps({"bytes": c["bytes"], "trailing": c["trailing"], "drain": c.get("drain", False)}) for c in cases).encode()
     p = vlib.run_harness(hbin, ["c05one"], input_bytes=inp, timeout=600)
     if p.returncode != 0:
         raise vlib.Infra("c05one failed: " + p.stderr.decode()[-1000:])
@@ -93,7 +93,7 @@ def run(tier, argv):
             if i + 1 == m["line"]:
                 ev = e
                 break
-        mism.append({"bytes": ev["bytes"], "trailing": ev["trailing"], "want": m["want"], "got": {"ok": ev["ok"]}, "what": "verdict"})
+        mism.append({"bytes": ev["bytes"], "trailing": ev["trailing"], "drain": ev.get("drain", False), "want": m["want"], "got": {"ok": ev["ok"]}, "what": "verdict"})
     rep.cov["evaluations"] = tests
     rep.cov["distinct_nontrivial"] = tests
     rep.cov["rule"] = ("every transition of the TLC-exported RFC 8259 automaton (all 256 bytes, nesting <= %d) x every suffix of a "
